@@ -40,6 +40,8 @@ class Ctx:
         self.result = None        # name of the struct cbor_decoder_result* parameter
         self.bound = set()        # parameters and locals
         self.loops = []; self.fname = ''
+        self.tailcall_pair = False
+        self.stored = False
         self.src = None; self.incs = None; self.defs = None
     def global_const(self, name):
         docs = cast.ast_dump(self.src, self.incs, name, self.defs)
@@ -153,6 +155,11 @@ def E(n, cx):
                     parts.append(E(a, cx))
                 elif kind == "skip":
                     continue
+                elif kind == "buffer":
+                    aa = cast.strip(a)
+                    if not (aa.get("kind") == "DeclRefExpr" and aa["referencedDecl"]["name"] in cx.buffers):
+                        raise Unsupported("buffer argument is not the caller's buffer")
+                    cx.tailcall_pair = True
                 else:
                     raise Unsupported("call argument kind")
             return "(g%s %s)" % (name, " ".join(parts))
@@ -183,7 +190,14 @@ def S(stmts, cx, ret):
     if k == "CompoundStmt":
         return S([x for x in s.get("inner", [])] + rest, cx, ret)
     if k == "ReturnStmt":
-        return ret(E(s["inner"][0], cx))
+        cx.tailcall_pair = False
+        e = E(s["inner"][0], cx)
+        if cx.tailcall_pair:
+            if cx.stored:
+                raise Unsupported("tail call into an encoder after own stores")
+            cx.tailcall_pair = False
+            return e
+        return ret(e)
     if k == "DeclStmt":
         out = ""
         for d in s.get("inner", []):
@@ -211,6 +225,7 @@ def S(stmts, cx, ret):
             b = cast.strip(base)
             if b.get("kind") == "DeclRefExpr" and b["referencedDecl"]["name"] in cx.buffers:
                 w, _ = width(ctype(l))
+                cx.stored = True
                 return "let stores := stores ++ [(%s, %s)] in\n  %s" % (E(idx, cx), E(rhs, cx), S(rest, cx, ret))
         if l.get("kind") == "MemberExpr" and l.get("isArrow"):
             b = cast.strip(l["inner"][0])
@@ -310,6 +325,31 @@ FUNCTIONS = [
     ("cbor/internal/encoders.c", "_cbor_encode_uint32", ["int", "buffer", "int", "int"]),
     ("cbor/internal/encoders.c", "_cbor_encode_uint64", ["int", "buffer", "int", "int"]),
     ("cbor/encoding.c", "_cbor_encode_byte", ["int", "buffer", "int"]),
+    ("cbor/internal/encoders.c", "_cbor_encode_uint", ["int", "buffer", "int", "int"]),
+    ("cbor/encoding.c", "cbor_encode_uint8", ["int", "buffer", "int"]),
+    ("cbor/encoding.c", "cbor_encode_uint16", ["int", "buffer", "int"]),
+    ("cbor/encoding.c", "cbor_encode_uint32", ["int", "buffer", "int"]),
+    ("cbor/encoding.c", "cbor_encode_uint64", ["int", "buffer", "int"]),
+    ("cbor/encoding.c", "cbor_encode_uint", ["int", "buffer", "int"]),
+    ("cbor/encoding.c", "cbor_encode_negint8", ["int", "buffer", "int"]),
+    ("cbor/encoding.c", "cbor_encode_negint16", ["int", "buffer", "int"]),
+    ("cbor/encoding.c", "cbor_encode_negint32", ["int", "buffer", "int"]),
+    ("cbor/encoding.c", "cbor_encode_negint64", ["int", "buffer", "int"]),
+    ("cbor/encoding.c", "cbor_encode_negint", ["int", "buffer", "int"]),
+    ("cbor/encoding.c", "cbor_encode_bytestring_start", ["int", "buffer", "int"]),
+    ("cbor/encoding.c", "cbor_encode_string_start", ["int", "buffer", "int"]),
+    ("cbor/encoding.c", "cbor_encode_array_start", ["int", "buffer", "int"]),
+    ("cbor/encoding.c", "cbor_encode_map_start", ["int", "buffer", "int"]),
+    ("cbor/encoding.c", "cbor_encode_tag", ["int", "buffer", "int"]),
+    ("cbor/encoding.c", "cbor_encode_bool", ["int", "buffer", "int"]),
+    ("cbor/encoding.c", "cbor_encode_ctrl", ["int", "buffer", "int"]),
+    ("cbor/encoding.c", "cbor_encode_indef_bytestring_start", ["buffer", "int"]),
+    ("cbor/encoding.c", "cbor_encode_indef_string_start", ["buffer", "int"]),
+    ("cbor/encoding.c", "cbor_encode_indef_array_start", ["buffer", "int"]),
+    ("cbor/encoding.c", "cbor_encode_indef_map_start", ["buffer", "int"]),
+    ("cbor/encoding.c", "cbor_encode_null", ["buffer", "int"]),
+    ("cbor/encoding.c", "cbor_encode_undef", ["buffer", "int"]),
+    ("cbor/encoding.c", "cbor_encode_break", ["buffer", "int"]),
     ("cbor/internal/loaders.c", "_cbor_load_uint16", ["source"]),
     ("cbor/internal/loaders.c", "_cbor_load_uint32", ["source"]),
     ("cbor/internal/loaders.c", "_cbor_load_uint64", ["source"]),
@@ -324,7 +364,7 @@ def translate_all(cfg):
         try:
             txt = translate_function(src, incs, defs, name, known, kinds)
             out.append((name, txt))
-            if all(k == "int" for k in kinds):
+            if all(k in ("int", "buffer") for k in kinds):
                 known[name] = kinds
         except Unsupported as u:
             notes.append("%s: %s" % (name, u))
